@@ -28,7 +28,7 @@ TECH = {
     "C16": "RF-WHO export write layer + RF-DOM grow-before-store",
     "C17": "RF-TAB return-code/metacharacter table agreement + RF-IVL capacity",
     "C18": "RF-LOCK context-sensitive lockset over main loop and acquisition thread (queue_mutex, clnt_mutex), lock pairing and order + RF-DOM service filter / free-at-zero / subscriber dominance + RF-CORR mask rebuild + RF-PAIR drain-on-close",
-    "C19": "RF-TAB message-type exhaustiveness/length + RF-TAINT client fields to sinks + RF-STATE token transitions",
+    "C19": "RF-TAB message-type exhaustiveness and validated-length vs. read-member agreement + RF-TAINT/RF-IVL client fields to index/length/assert sinks (interval analysis, pointer-arithmetic subscripts) + RF-STATE token transitions with a path-sensitive grant-site typestate + RF-DOM error-closes and drain-before-update",
     "C20": "RF-LOCK context-sensitive must-lockset (path-sensitive typestate, caller lockset as context) over the documented cross-thread entry points + lock pairing on all paths + callbacks-without-locks + lock-order acyclicity",
 }
 
